@@ -712,3 +712,10 @@ func (r *foRun) snapshotLog() []foEvent {
 	r.mu.Unlock()
 	return l
 }
+
+// release drops the references to the instances under test. The backends' background goroutines reference the harness stats
+// tracker, which references this run: without breaking the cycle the cache finalizers never run and janitors pile up.
+func (r *foRun) release() {
+	r.be, r.fo = nil, nil
+	r.sched.lockedFn = nil
+}
